@@ -46,13 +46,13 @@ TRUSTED = [
     "SOA rdata = serial + 2^32*variant); wire encoding/decoding of the messages is dnspython's own (C02/C03 territory)",
 ]
 ASSUMPTIONS = [
-    "record types used: A NS SOA MX TXT AAAA RRSIG DNAME NSEC (no CNAME-like node exclusivity)",
+    "record types used: A NS SOA MX TXT AAAA RRSIG DNAME NSEC CNAME (CNAME-and-other-data exclusion of dns/node.py modelled)",
     "no TSIG on the transfer (C14)",
 ]
 
 SOA, AXFR, IXFR = 6, 252, 251
 A, NS, MX, TXT, AAAA, RRSIG = 1, 2, 15, 16, 28, 46
-DNAME, NSEC = 39, 47
+DNAME, NSEC, CNAME = 39, 47, 5
 SINGLETONS = (6, 30, 39, 47, 5)      # dns.rdatatype._singletons: adding a record replaces the RRset
 IN, CH = 1, 3
 T32 = 1 << 32
@@ -88,7 +88,7 @@ def rdata_text(t, cv, d):
         return f"ns{d}.example." if d < 16 else f"ns{d}.example.net."
     if t == MX:
         return f"{10 + (d & 0x7FFF)} mail.example."
-    if t == DNAME:
+    if t == DNAME or t == CNAME:
         return f"target{d}.example."
     if t == NSEC:
         return f"next{d}.example. A NS RRSIG"
@@ -776,17 +776,43 @@ def body_recs(z):
 
 
 TTLS = [0, 1, 60, 300, 3600, 86400, 2147483647]
-REC_TYPES = [A, A, A, AAAA, AAAA, TXT, TXT, MX, MX, NS, NS, DNAME, NSEC]
+REC_TYPES = [A, A, A, AAAA, AAAA, TXT, TXT, MX, MX, NS, NS, DNAME, NSEC, CNAME]
+
+
+def kind_of(t, cv):
+    """dns/node.py NodeKind: 2 = CNAME (CNAME, RRSIG(CNAME)), 1 = neutral (NSEC, NSEC3, KEY and their RRSIGs), 0 = regular"""
+    if t == CNAME or (t == RRSIG and cv == CNAME):
+        return 2
+    if t in (NSEC, 50, 25) or (t == RRSIG and cv in (NSEC, 50, 25)):
+        return 1
+    return 0
+
+
+def conflicting(k, k2):
+    return k[0] == k2[0] and {kind_of(k[1], k[2]), kind_of(k2[1], k2[2])} == {0, 2}
+
+
+def zput(z, k, v):
+    """store an RRset in a zone dict; a CNAME(-kind) RRset and regular RRsets do not share a node (RFC 1034 3.6.2):
+    the most recent one wins"""
+    for k2 in [k2 for k2 in z if conflicting(k, k2)]:
+        del z[k2]
+    z[k] = v
 
 
 def gen_key(rng, names):
     n = rng.choice(names)
     r = rng.random()
     if r < 0.12:
-        return (n, RRSIG, rng.choice([A, NS, TXT, SOA]))
+        cv = rng.choice([A, NS, TXT, SOA, NSEC, CNAME])
+        if cv == CNAME and n == 0:
+            cv = A
+        return (n, RRSIG, cv)
     t = rng.choice(REC_TYPES)
     if t == NS and n == 0:
         t = TXT
+    if t == CNAME and n == 0:
+        t = A
     return (n, t, 0)
 
 
@@ -800,7 +826,7 @@ def gen_zone(rng, serial, size=None, names=None, ids=8):
         if k in z and k[1] not in SINGLETONS:
             z[k][1].add(rng.randrange(ids))
         else:
-            z[k] = (z[k][0] if k in z else rng.choice(TTLS), {rng.randrange(ids)})
+            zput(z, k, (z[k][0] if k in z else rng.choice(TTLS), {rng.randrange(ids)}))
     return z
 
 
@@ -820,7 +846,7 @@ def mutate(rng, z, serial, nops=None, names=None, ids=8):
             if k in z and k[1] not in SINGLETONS:
                 z[k][1].add(rng.randrange(ids))
             else:
-                z[k] = (z[k][0] if k in z else rng.choice(TTLS), {rng.randrange(ids)})
+                zput(z, k, (z[k][0] if k in z else rng.choice(TTLS), {rng.randrange(ids)}))
         elif r < 0.6:
             k = rng.choice(keys)
             ds = z[k][1]
@@ -1005,7 +1031,7 @@ def apply_fault(rng, chunks, rdt, fault, pos):
         elif r[2] == RRSIG:
             return None
         else:
-            r[2] = rng.choice([x for x in [A, TXT, MX, AAAA, SOA, DNAME] if x != r[2]])
+            r[2] = rng.choice([x for x in [A, TXT, MX, AAAA, SOA, DNAME, CNAME] if x != r[2]])
     elif fault == "rcode":
         rcodes[i] = rng.choice([1, 2, 5, 9])
         tag = MUSTERR
@@ -1056,9 +1082,9 @@ def reference(z0, rdt, ser, udp, msgs):
             return "soa not at apex"
         k = (r[0], r[2], r[3])
         if k in zone:
-            zone[k] = (min(zone[k][0], clamp(r[4])), {r[5]} if r[2] in SINGLETONS else zone[k][1] | {r[5]})
+            zput(zone, k, (min(zone[k][0], clamp(r[4])), {r[5]} if r[2] in SINGLETONS else zone[k][1] | {r[5]}))
         else:
-            zone[k] = (clamp(r[4]), {r[5]})
+            zput(zone, k, (clamp(r[4]), {r[5]}))
         return None
 
     def delete(r):
@@ -1072,12 +1098,14 @@ def reference(z0, rdt, ser, udp, msgs):
         zone[k][1].discard(r[5])
         if not zone[k][1]:
             del zone[k]
+        else:
+            zput(zone, k, zone[k])
         return None
 
     def put_soa(r):
         if r[1] != IN:
             return "class"
-        zone[SOAKEY] = (clamp(r[4]), {r[5]})
+        zput(zone, SOAKEY, (clamp(r[4]), {r[5]}))
         return None
 
     first = flat[0][2]
@@ -1334,6 +1362,60 @@ def singleton_cases(ctx, rng, n):
         yield "singleton", mk_case(zk, rel, rdt, ser, 0, chain[0], msgs, FAULT, None)
 
 
+def cname_cases(ctx, rng, n):
+    """CNAME and other data (dns/node.py): names that change between a CNAME and ordinary RRsets from one version
+    to the next (valid: the difference deletes the old kind before it adds the new one), and streams that add one
+    kind where the other still is (the most recent one wins; NSEC / RRSIG(NSEC) stay)"""
+    for _ in range(n):
+        zk, rel = zk_rel(rng)
+        names = [1, 2, 3, 5]
+        nver = rng.choice([1, 1, 2, 3])
+        ser = gen_serials(rng, nver)
+        z = gen_zone(rng, ser[0], size=rng.choice([2, 4, 8]), names=[0] + names, ids=4)
+        chain = [z]
+        for i in range(nver):
+            z = mutate(rng, z, ser[i + 1], nops=rng.choice([0, 1, 2]), names=[0] + names, ids=4)
+            for nm in rng.sample(names, rng.randint(1, 2)):
+                r = rng.random()
+                if r < 0.45:
+                    zput(z, (nm, CNAME, 0), (rng.choice(TTLS), {rng.randrange(4)}))
+                    if rng.random() < 0.4:
+                        zput(z, (nm, RRSIG, CNAME), (rng.choice(TTLS), {rng.randrange(4)}))
+                elif r < 0.9:
+                    k = (nm, rng.choice([A, TXT, MX, AAAA]), 0) if rng.random() < 0.8 else (nm, RRSIG, A)
+                    zput(z, k, (rng.choice(TTLS), {rng.randrange(4) for _ in range(rng.randint(1, 2))}))
+                else:
+                    zput(z, rng.choice([(nm, NSEC, 0), (nm, RRSIG, NSEC)]), (rng.choice(TTLS), {rng.randrange(4)}))
+            chain.append(z)
+        s0 = soa_id(chain[0]) & 0xFFFFFFFF
+        q = rng.random()
+        if q < 0.3:
+            recs = axfr_stream(rng, chain[-1], shuffle=rng.random() < 0.5)
+            rdt, sr = (AXFR, None) if rng.random() < 0.6 else (IXFR, s0)
+        else:
+            recs = ixfr_stream(rng, chain, shuffle=rng.random() < 0.5)
+            rdt, sr = IXFR, s0
+        if rdt == IXFR and soa_id(chain[-1]) & 0xFFFFFFFF == s0:
+            continue
+        if rng.random() < 0.5:
+            msgs = msgs_of(split(recs, rand_cuts(rng, len(recs), allow_empty=False)), rdt)
+            yield "cname-valid", mk_case(zk, rel, rdt, sr, 0, chain[0], msgs, VALID, chain[-1])
+            continue
+        # a conflicting stream: drop one record (e.g. the deletion of the CNAME), or add a record of the other kind
+        recs = [list(r) for r in recs]
+        body = [i for i, r in enumerate(recs) if r[2] != SOA]
+        f = rng.random()
+        if body and f < 0.4:
+            del recs[rng.choice(body)]
+        else:
+            nm = rng.choice(names)
+            t, cv = rng.choice([(CNAME, 0), (CNAME, 0), (RRSIG, CNAME), (A, 0), (TXT, 0), (RRSIG, A), (NSEC, 0), (RRSIG, NSEC)])
+            pos = rng.randint(1, len(recs) - 1)
+            recs.insert(pos, [nm if rng.random() < 0.9 else 0, IN, t, cv, rng.choice(TTLS), rng.randrange(4)])
+        msgs = msgs_of(split(recs, rand_cuts(rng, len(recs))), rdt)
+        yield "cname-conflict", mk_case(zk, rel, rdt, sr, 0, chain[0], msgs, FAULT, None)
+
+
 def malformed_cases(ctx, rng, n):
     """arbitrary record soup: only 'an error leaves the zone untouched' is demanded"""
     for _ in range(n):
@@ -1357,7 +1439,7 @@ def malformed_cases(ctx, rng, n):
                 recs.append([k[0], IN, k[1], k[2], z0[k][0], rng.choice(sorted(z0[k][1]))])
             else:
                 k = gen_key(rng, [0, 1, 2, 3, -1])
-                c = IN if rng.random() < 0.9 or k[1] in (A, AAAA, RRSIG, DNAME, NSEC) else CH
+                c = IN if rng.random() < 0.9 or k[1] in (A, AAAA, RRSIG, DNAME, NSEC, CNAME) else CH
                 ttl = rng.choice(TTLS + [2147483648, 4294967295])
                 t = k[1] if rng.random() < 0.95 or k[1] == RRSIG else SOA
                 recs.append([k[0], c, t, k[2], ttl, rng.randrange(4)])
@@ -1662,7 +1744,7 @@ def misc_cases(ctx, rng):
             if rng.random() < 0.15:
                 recs.append([rng.choice([0, 0, 1]), IN, SOA, 0, 300, rng.randrange(3)])
             else:
-                c = IN if rng.random() < 0.85 or k[1] in (A, AAAA, RRSIG, DNAME, NSEC) else CH
+                c = IN if rng.random() < 0.85 or k[1] in (A, AAAA, RRSIG, DNAME, NSEC, CNAME) else CH
                 recs.append([k[0], c, k[1], k[2], rng.choice([0, 5, 300, 300, 2147483647, 2147483648, 4294967295]), rng.randrange(3)])
         yield "group", [5, rng.randrange(2), recs]
 
@@ -1675,6 +1757,7 @@ def cases(ctx):
     yield from must_error_cases(ctx, rng, ctx.n(350, 3000))
     yield from fault_cases(ctx, rng, ctx.n(400, 4500))
     yield from singleton_cases(ctx, rng, ctx.n(80, 800))
+    yield from cname_cases(ctx, rng, ctx.n(150, 1500))
     yield from malformed_cases(ctx, rng, ctx.n(300, 4500))
     yield from feed_cases(ctx, rng, ctx.n(200, 2000))
     yield from refresh_cases(ctx, rng, ctx.n(200, 2500))
